@@ -256,6 +256,9 @@ def runActions (s : Store) (t : Txn) (acts : List String) : Option (Txn × List 
         let (t', ok) := t.setKey s bs
         some (t', outs ++ [if ok then "set" else "dup"])
       | _, _ => none
+    | ["visit", n] =>
+      -- nested `QueryAt(n, …)` inside the callback: only the cursor moves
+      n.toNat?.map (fun i => ({ t with cursor := i }, outs))
     | ["get", col] =>
       match s.findCol col with
       | some c =>
